@@ -476,6 +476,8 @@ class Check:
                 if v["prop"] == "C07" and isinstance(v["detail"], list) and v["detail"] and v["detail"][0] == "Panic" \
                         and "PANIC" in props:
                     v = dict(v, prop=self.prop)
+                if v["prop"] == "CRASH" and "CRASH" in props:
+                    v = dict(v, prop=self.prop)
                 if v["prop"] in props or v["prop"] == self.prop:
                     self.report(res, self.prop, f"{name} line {v['line']}: {v['prop']} {json.dumps(v['detail'])[:300]}",
                                 sig_of(self.prop, res, v))
@@ -1121,7 +1123,59 @@ def check_C09(chk):
                       BASE_ASSUME + ["inflate correctness is observed through tokens only"])
 
 
-CHECKS = {"C09": check_C09, "C08": check_C08, "C10": check_C10, "C11": check_C11, "C12": check_C12, "C17": check_C17, "C07": check_C07, "C18": check_C18, "C13": check_C13, "C06": check_C06, "C04": check_C04, "C05": check_C05, "C01": check_C01, "C02": check_C02, "C03": check_C03, "C16": check_C16}
+def check_C14(chk):
+    """malformed or unsupported images are rejected, never mis-handled"""
+    rng = random.Random(chk.seed * 31 + 14)
+    quick = chk.tier == "quick"
+    cases, gen, dist = Q.tlc_enumerate("GenMalformed.tla", env={"PAIRS": "0" if quick else "1"})
+    if not quick:
+        rng.shuffle(cases)
+        singles = [c for c in cases if len(c["m"]) == 1]
+        pairs = [c for c in cases if len(c["m"]) == 2][:2500]
+        cases = singles + pairs
+    G = S.geoms(chk.tier)
+    geos = ["G1", "G2k", "G3a"] if quick else ["G1", "G2", "G2k", "G3a", "G3b", "G3c", "G6", "G4"]
+    scens = []
+    for gi, gname in enumerate(geos):
+        geo = dict(G[gname])
+        geo["vclusters"] = min(geo["vclusters"], 40)
+        bpc = 1 << (geo["cb"] - geo["bsb"])
+        for ci, c in enumerate(cases):
+            if not quick and len(c["m"]) == 2 and (ci + gi) % len(geos):
+                continue            # pairs are spread over the geometries
+            images = [S.image_shaped(rng, geo, 1, frac=0.5, kinds=("data", "data", "zero", "comp"))]
+            v = geo["vclusters"] * bpc
+            steps = [{"op": "info"}, {"op": "mapall"}, {"op": "sweep"},
+                     {"op": "write", "gb": rng.randrange(v), "n": 1}, {"op": "write", "gb": 0, "n": min(v, 2 * bpc + 1)},
+                     {"op": "discard", "gb": 0, "n": v}, {"op": "write", "gb": rng.randrange(v), "n": 1},
+                     {"op": "flush"}, {"op": "check"}, {"op": "sweep"}, {"op": "reopen"}, {"op": "sweep"}]
+            nm = "+".join(f"{m[0]}.{m[1]}" for m in c["m"])
+            sc = S.mk(f"c14-{gname}-{nm}", geo, images, steps, mutations=c["m"], must_refuse=bool(c["refuse"]))
+            if gi % 2 == 1:
+                sc["params"] = {}
+            scens.append(sc)
+    res, st = Q.run_batch(scens, chk.wd, known=chk.known_tags(), par=14, isolate=True)
+    chk.consume(res, st, props=("C14", "CRASH"))
+    # memory in proportion to the file and the requests
+    for name, r in res.items():
+        sm = r["summary"]
+        if "peak_kib" in sm:
+            bound = 65536 + 32 * (sm.get("file_kib", 0) + (sm.get("bytes_requested", 0) >> 10))
+            if sm["peak_kib"] > bound:
+                chk.report(r, "C14", f"{name}: peak heap {sm['peak_kib']} KiB > bound {bound} KiB", "memory")
+        chk.nontrivial.add(json.dumps(r["scenario"].get("mutations")))
+    chk.stats["states"] += gen
+    chk.extra.update(dict(mutation_cases=len(cases), exhaustive_singles=True))
+    return chk.finish("model_checking",
+                      "spec/HeaderAccept.tla enumerates structured malformations (field x class; all singles, pairs on different fields in the thorough "
+                      "tier) and decides which must be refused; each is applied to an independently built valid image per geometry and run in its own "
+                      "process (address-space limit, alarm): open must not panic and must refuse unsupported features; if a device results, every "
+                      "operation (get_mapping of all clusters, sweep, writes, discard, flush, check, reopen) must return without panic, hang, process "
+                      "death, or heap use beyond 64 MiB + 32 x (file size + bytes requested)",
+                      BASE_ASSUME + ["unstructured byte strings are not enumerated (outside what a TLA+ model can enumerate)"])
+
+
+CHECKS = {"C14": check_C14, "C09": check_C09, "C08": check_C08, "C10": check_C10, "C11": check_C11, "C12": check_C12, "C17": check_C17, "C07": check_C07, "C18": check_C18, "C13": check_C13, "C06": check_C06, "C04": check_C04, "C05": check_C05, "C01": check_C01, "C02": check_C02, "C03": check_C03, "C16": check_C16}
 
 
 def main():
